@@ -359,6 +359,12 @@ def check_c07(world):
         if len(rec['socks']) != 1:
             out.append(V('C07', 'multi_branch', f'{owner}: id {mid} left through {len(rec["socks"])} outputs '
                          f'(sockets {rec["socks"]})', rec['step0'], rec['t0'], shape=sc['shape']))
+    # a balanced-sources consumer that dies from an internal error of the receive path (KeyError from the poller,
+    # 'duplicate topic' RuntimeError when two branches' frames were merged) has mixed its sources
+    for (nid, inc), (how, text) in world.outcomes.items():
+        if how == 'raise' and sc['nodes'][nid].get('sources_balance') and not sc['nodes'][nid].get('inject'):
+            out.append(V('C07', 'rejoin_crashed', f'{nid}#{inc}: the balanced rejoin left run() with {text}', None, None,
+                         shape=sc['shape']))
     last = {}
     seen = {}
     for e in world.events:
